@@ -320,6 +320,23 @@ theorem mBlockComment_some {t : Text} {n : Nat} (h : mBlockComment t = some n) :
       simp only [List.length_cons]; omega
   · cases h
 
+theorem escapeLen_cons (c : Nat) (r : Text) :
+    escapeLen (c :: r) =
+      if c = 92 ∨ c = 34 ∨ c = 114 ∨ c = 110 ∨ c = 116 ∨ c = 48 ∨ c = 39 then some 1
+      else if c = 120 then
+        match r with
+        | d1 :: d0 :: _ => if isHexDigit d1 && isHexDigit d0 then some 3 else none
+        | _ => none
+      else if c = 117 then
+        match r with
+        | [] => none
+        | b :: r' =>
+          if b = 123 then
+            let k := (r'.takeWhile isHexDigit).length
+            if 2 ≤ k ∧ k ≤ 6 ∧ r'[k]? = some 125 then some (k + 3) else none
+          else none
+      else none := rfl
+
 /-- a match of `RE_ESCAPE` is not empty, lies inside the text, and is a match of the matched
     text alone -/
 theorem escapeLen_some {t : Text} {n : Nat} (h : escapeLen t = some n) :
@@ -327,7 +344,7 @@ theorem escapeLen_some {t : Text} {n : Nat} (h : escapeLen t = some n) :
   cases t with
   | nil => cases h
   | cons c r =>
-    rw [Unescape.escapeLen.eq_2] at h
+    rw [escapeLen_cons] at h
     by_cases hc : c = 92 ∨ c = 34 ∨ c = 114 ∨ c = 110 ∨ c = 116 ∨ c = 48 ∨ c = 39
     · rw [if_pos hc] at h
       cases h
@@ -541,6 +558,17 @@ theorem triviaRound_inv {N : Nat} {s : St} (hs : Inv N s) : Inv N (triviaRound s
   rw [triviaRound_snd]
   exact skip_inv matchOK_bc (skip_inv matchOK_lc (skip_inv matchOK_ws hs))
 
+theorem triviaRound_false {s : St} (h : (triviaRound s).1 = false) : (triviaRound s).2 = s := by
+  rw [triviaRound_fst] at h
+  simp only [Bool.or_eq_false_iff] at h
+  obtain ⟨⟨h1, h2⟩, h3⟩ := h
+  have e1 := skip_false h1
+  rw [e1] at h2 h3
+  have e2 := skip_false h2
+  rw [e2] at h3
+  have e3 := skip_false h3
+  rw [triviaRound_snd, e1, e2, e3]
+
 theorem skipTriviaN_succ (n : Nat) (s : St) :
     skipTriviaN (n + 1) s =
       if (triviaRound s).1 = true then skipTriviaN n (triviaRound s).2 else (triviaRound s).2 := rfl
@@ -561,7 +589,65 @@ theorem skipTriviaN_spec : ∀ (n : Nat) (s : St), s.rest.length < n →
     | false =>
       rw [if_neg (by decide)]
       refine ⟨hl.1, ?_, fun N hs => triviaRound_inv hs⟩
-      sorry
+      rw [triviaRound_false ha]; exact ha
+
+/-- the bound of `skip_trivia` suffices: it stops because no pattern matches any more -/
+theorem skipTrivia_done (s : St) : (triviaRound (skipTrivia s)).1 = false :=
+  (skipTriviaN_spec _ s (Nat.lt_succ_self _)).2.1
+
+theorem skipTrivia_len (s : St) : (skipTrivia s).rest.length ≤ s.rest.length :=
+  (skipTriviaN_spec _ s (Nat.lt_succ_self _)).1
+
+theorem skipTrivia_inv {N : Nat} {s : St} (hs : Inv N s) : Inv N (skipTrivia s) :=
+  (skipTriviaN_spec _ s (Nat.lt_succ_self _)).2.2 N hs
+
+/-! ### the small scanner methods -/
+
+theorem triv_spec (N : Nat) : Spec N triv RLe :=
+  fun s hs => ⟨skipTrivia_inv hs, skipTrivia_len s⟩
+
+/-- what a pattern handed to `scan` must satisfy to emit tokens of kind `kind`, consuming at
+    least `k` characters -/
+def ScanOK (m : Text → Option Nat) (kind : TK) (k : Nat) : Prop :=
+  ∀ t n, m t = some n → k ≤ n ∧ n ≤ t.length ∧ ValOK kind (t.take n)
+
+theorem scanEmit_spec {m : Text → Option Nat} {kind : TK} {k : Nat} (hm : ScanOK m kind k)
+    (N : Nat) : Spec N (scanEmit m kind) (RB k) := by
+  intro s hs
+  unfold scanEmit
+  cases h : m s.rest with
+  | none => exact ⟨hs, Nat.le_refl _, fun h => by cases h⟩
+  | some n =>
+    obtain ⟨h1, h2, h3⟩ := hm _ _ h
+    refine ⟨(hs.adv h2).emit h3, ?_, fun _ => ?_⟩
+    · simp only [emit_rest, adv_rest_length]; omega
+    · simp only [emit_rest, adv_rest_length]; omega
+
+theorem expect_spec (N : Nat) (c : Nat) (kind : TK) (k : EK) (hv : ValOK kind [c]) :
+    Spec N (expect c kind k) (RGe 1) := by
+  intro s hs
+  unfold expect
+  by_cases hp : s.peek = some c
+  · rw [if_pos hp]
+    have := peek_some hp
+    refine ⟨(hs.adv this).emit hv, ?_⟩
+    simp only [emit_rest, adv_rest_length]; omega
+  · rw [if_neg hp]; exact error_sat hs k _
+
+theorem optChar_spec (N : Nat) (c : Nat) (kind : TK) (hv : ValOK kind [c]) :
+    Spec N (optChar c kind) (RB 1) := by
+  intro s hs
+  unfold optChar
+  by_cases hp : s.peek = some c
+  · rw [if_pos hp]
+    have := peek_some hp
+    refine ⟨(hs.adv this).emit hv, ?_, fun _ => ?_⟩
+    · simp only [emit_rest, adv_rest_length]; omega
+    · simp only [emit_rest, adv_rest_length]; omega
+  · rw [if_neg hp]; exact ⟨hs, Nat.le_refl _, fun h => by cases h⟩
+
+theorem pure_spec {α} (N : Nat) (a : α) : Spec N (pure a : M α) RLe :=
+  fun _ hs => ⟨hs, Nat.le_refl _⟩
 
 end Front
 end Pest
